@@ -47,7 +47,7 @@ func c32(r *core.Run) {
 	la := core.NewLockAnalysis(w, "pkg/accounting")
 	la.Run()
 	n1 := la.CheckGuarded(r, "C32.Lk1", AP, "unPaidTraffic", AP+".lock", nil)
-	r.Floor("C32.Lk1", "accesses to accountingPeer.unPaidTraffic", n1, 6)
+	r.Floor("C32.Lk1", "accesses to accountingPeer.unPaidTraffic", n1, 3)
 	n2 := la.CheckGuarded(r, "C32.Lk1", AC, "accountingPeers", AC+".accountingPeersMu", nil)
 	r.Floor("C32.Lk1", "accesses to Accounting.accountingPeers", n2, 2)
 
